@@ -550,7 +550,8 @@ func main() {
 				switch {
 				case o == "UNOPENABLE":
 					fail("a failing "+c.text+" ("+errno+") left a directory that cannot be reopened; operation reported "+r, o, i)
-				case r == "ok" && !(o == newObs || (isWrite && stripData(o) == stripData(newObs))):
+				case r == "ok" && o != newObs:
+					// also for a data write: a write that is reported as applied is on disk, completely
 					fail("operation reported success although "+c.text+" failed ("+errno+") and the state is not the new one", "recovered:\n"+o+"\n--- after:\n"+newObs, i)
 				case r != "ok" && !okState(o):
 					fail("operation reported failure ("+errno+" on "+c.text+") and the state is neither old nor new", "recovered:\n"+o+"\n--- before:\n"+old, i)
